@@ -791,6 +791,13 @@ func init() {
 			}
 			return iface{}
 		},
+		"(reflect.vmctx).Deadline": func(fr *frame, a []value) value {
+			tp := fr.i.prog.ImportedPackage("time")
+			if tp == nil {
+				panic(vmUnsupported("context.Deadline without package time"))
+			}
+			return tuple{zero(tp.Type("Time").Type()), false}
+		},
 		"(reflect.vmctx).String": func(fr *frame, a []value) value { return "context" },
 	}
 	for k, v := range ext {
